@@ -50,12 +50,17 @@ def run(ctx):
         if r.get("done"):
             nkeep = r["n"]
             continue
+        if r.get("harness"):
+            ctx.drift.append(dict(what=r["harness"]))
+            continue
         ctx.evaluations += 2
         ctx.traces_validated += 1
         key = "keep|%s|%s|%s" % (r["pooled"], r["between"], r["warm"])
         ctx.nontrivial.add(key)
         if not r["ok"]:
-            ctx.violation(key, "Invoker kept across two runs of the parent VM (pooled=%s, between the runs: %s, used before: %s): %s\n%s" % (r["pooled"], r["between"], r["warm"], r["what"], r["src"]),
+            head = ("pooled Invoker on a new VM (round %s)" % r["warm"]) if r["between"] == "abort-of-another-vm" else \
+                   "Invoker kept across two runs of the parent VM (pooled=%s, between the runs: %s, used before: %s)" % (r["pooled"], r["between"], r["warm"])
+            ctx.violation(key, "%s: %s\n%s" % (head, r["what"], r["src"]),
                           dict(kind="fail", keep=True, pooled=r["pooled"], between=r["between"], warm=r["warm"], src=r["src"], what=r["what"]))
     if nkeep == 0:
         raise vlib.Inconclusive("no kept-Invoker histories ran")
